@@ -23,9 +23,26 @@ def model_check_btree(ctx, quick):
     """BTreeI: the transcribed insert / erase algorithm, all histories over a bounded key set; clauses of C02 as invariants"""
     runs = [(4, 4, 4, 3, "TRUE"), (4, 5, 4, 3, "TRUE"), (5, 4, 4, 3, "TRUE"), (4, 4, 10, 1, "FALSE")] if quick else \
            [(4, 4, 4, 4, "TRUE"), (4, 5, 4, 4, "TRUE"), (5, 4, 4, 4, "TRUE"), (5, 5, 5, 4, "TRUE"), (6, 4, 5, 4, "TRUE"), (4, 4, 13, 1, "FALSE"), (5, 4, 12, 1, "FALSE"), (4, 4, 5, 4, "TRUE")]
+    import concurrent.futures as cf
+    jobs = []
     for (ls, is_, nk, mm, dup) in runs:
-        tlc_mc(ctx, SD, "BTreeI", "mc_btree_run.cfg", workers=NCPU, coverage=False, timeout=6000, xmx="24g", deque=True,
-               cfg_text=BT_CFG % (ls, is_, keyset(nk), mm, dup, "none", ""))
+        jobs.append(dict(cfg="mc_btree_run_%d_%d_%d.cfg" % (ls, is_, nk), cfg_text=BT_CFG % (ls, is_, keyset(nk), mm, dup, "none", "")))
+    # bulk_load: every size up to NB for the capacity pairs the driver uses (deterministic construction: one state per size), and
+    # histories that continue from a bulk-loaded tree
+    NB = 200 if quick else 700
+    pairs = ((4, 5), (7, 4), (4, 16), (9, 6)) if quick else ((4, 4), (4, 5), (5, 4), (6, 7), (7, 4), (8, 8), (16, 4), (4, 16), (5, 5), (9, 6))
+    bulk_only = BT_CFG.replace("SPECIFICATION Spec", "SPECIFICATION BulkOnlySpec").replace("INVARIANT Results\nVIEW View\n", "")
+    for (ls, is_) in pairs:
+        jobs.append(dict(cfg="mc_btree_bulk_%d_%d.cfg" % (ls, is_), cfg_text=bulk_only % (ls, is_, keyset(NB), 1, "FALSE", "none", "")))
+    jobs.append(dict(cfg="mc_btree_bulk2.cfg", cfg_text=BT_CFG.replace("SPECIFICATION Spec", "SPECIFICATION BulkSpec") % (4, 4, keyset(9 if quick else 11), 1, "FALSE", "none", "")))
+    with cf.ThreadPoolExecutor(max_workers=4) as pool:
+        futs = [pool.submit(tlc_mc, ctx, SD, "BTreeI", j["cfg"], workers=4, coverage=False, timeout=6000, xmx="12g", deque=True, cfg_text=j["cfg_text"]) for j in jobs]
+        for f in futs:
+            f.result()
+    r = tlc_mc(ctx, SD, "BTreeI", "mc_btree_bulkneg.cfg", workers=8, coverage=False, timeout=3000, xmx="16g", deque=True, expect_ok=False,
+               cfg_text=bulk_only % (7, 4, keyset(NB), 1, "FALSE", "bulk_leaf_capacity", ""))
+    if r["ok"] or "Invariant TreeInv is violated" not in r["out"]:
+        raise InternalError("negative self-test: BTreeI bulk_load with the leaf capacity on inner levels does not violate TreeInv")
     # which branches were reached (4/4 slots, 4 keys x multiplicity 4: three levels)
     notes, st = tlc_gen(ctx, SD, "BTreeI", "mc_btree_note.cfg", workers=4, timeout=3000, cfg_text=BT_CFG % (4, 4, keyset(4), 4, "TRUE", "none", "CONSTRAINT Note\n"))
     tags, heights = {}, {}
@@ -44,7 +61,7 @@ def model_check_btree(ctx, quick):
                    cfg_text=BT_CFG % (4, 4, keyset(4), 4, "TRUE", mut, ""))
         if r["ok"] or "Invariant TreeInv is violated" not in r["out"]:
             raise InternalError("negative self-test: BTreeI with Mutation=%s does not violate TreeInv" % mut)
-    ctx.cov["negative_self_tests"] = 3
+    ctx.cov["negative_self_tests"] = 4
 
 
 def ie_history(rng, n, nkeys):
@@ -130,6 +147,9 @@ def run(ctx):
     bh, st = tlc_gen(ctx, SD, "Gen_BTreeI", "gen_btreei_run.cfg", workers=8, timeout=3000, xmx="16g",
                      cfg_text=BT_CFG.replace("SPECIFICATION Spec", "SPECIFICATION GenSpec").replace("INVARIANT TreeInv\nINVARIANT Results\nVIEW View", "VIEW GView") % (4, 4, keyset(4), 4, "TRUE", "none", "CONSTRAINT Emit\n"))
     ctx.cov["model_runs"].append(st)
+    # bulk loads of many sizes (level boundaries differ per capacity pair), followed by a few calls
+    for nb in ([0, 1, 4, 5, 16, 17, 25, 26, 64, 65, 100, 176, 181, 200, 256, 300, 420] if quick else list(range(0, 130)) + list(range(130, 900, 7))):
+        ie.append("B 1 %d %s O 1 %d I 1 %d X 1 %d E 1 %d" % (nb, " ".join(str(i) for i in range(1, nb + 1)), max(1, nb // 2), nb + 5, nb // 3, max(1, nb - 1)))
     seen_h = set()
     for b in bh:
         ln = " ".join(" ".join(str(x) for x in o) for o in b.get("h", []))
